@@ -131,10 +131,11 @@ pub fn codec(r: &mut Rng, n: u64, thorough: bool, out: &mut Out) {
     let mut case = 0u64;
     let mut seen: HashMap<Vec<u8>, String> = HashMap::new();
     for i in 0..n {
-        let size = match r.below(10) {
-            0 => 0,
-            1..=5 => r.range(1, 4),
-            6..=8 => r.range(4, 12),
+        let size = match if gen::small() { r.below(4) } else { 4 + r.below(10) } {
+            0..=3 if gen::small() => r.below(3),
+            4 => 0,
+            5..=9 => r.range(1, 4),
+            10..=12 => r.range(4, 12),
             _ => *r.pick(&[63u64, 64, 65]),
         } as u32;
         let reg = if i % 7 == 3 {
